@@ -2,10 +2,10 @@ package main
 
 import (
 	"flag"
-	"runtime/pprof"
 	"fmt"
 	"os"
 	"runtime"
+	"runtime/pprof"
 	"sort"
 	"strconv"
 	"strings"
